@@ -60,27 +60,31 @@ Print Assumptions C12_no_UB.
    with identity e (the accumulator starts from the op's identity since fix "SIMD full reduction starts
    from the op's identity").  [msum l] = fold_left f l e; for a non-empty l it is the scalar evaluator's left
    fold seeded by the first element. *)
-Theorem C12_reduce_full_on_domain : forall (A : Type) (f : A -> A -> A) (e z d : A) (N : nat) (inp : list A),
+Theorem C12_reduce_full_on_domain : forall (A : Type) (f : A -> A -> A) (e z d : A) (N : nat) (init : option A) (inp : list A),
   (forall a b c, f (f a b) c = f a (f b c)) -> (forall a b, f a b = f b a) -> (forall a, f e a = a) -> 0 < N ->
-  eval_reduce_full N f z e (length inp) inp = Some (fold_left f inp e) /\
-  (inp <> [] -> fold_left f inp e = spec_reduce_full f d None inp).
+  let seed := match init with Some i => i | None => e end in
+  option_map (apply_initial f init) (eval_reduce_full N f z e (length inp) inp) = Some (fold_left f inp seed) /\
+  (init <> None \/ inp <> [] -> fold_left f inp seed = spec_reduce_full f d init inp).
 Proof.
-  intros A f e z d N inp Ha Hc Hi HN. split.
-  - exact (eval_reduce_full_eq A f e Ha Hc Hi N HN d z inp).
-  - intros Hne. symmetry. exact (fold1_msum A f e Ha Hc Hi d inp Hne).
+  intros A f e z d N init inp Ha Hc Hi HN. split.
+  - exact (eval_reduce_full_init_eq A f e Ha Hc Hi N HN d z init inp).
+  - intros H. destruct init as [i|]; [reflexivity|].
+    destruct H as [H|H]; [congruence|]. symmetry. exact (fold1_msum A f e Ha Hc Hi d inp H).
 Qed.
 Print Assumptions C12_reduce_full_on_domain.
 
 (* 2-d horizontal core (reduce along the contiguous axis of an (R,C) input, identity padding of the
    last pack, lane-wise accumulation then fold of the lanes): row sums, for every N, R, C *)
-Theorem C12_reduce_horizontal_core : forall (A : Type) (f : A -> A -> A) (e z d : A) (N R C : nat) (inp out0 : list A) (out2 : nat * nat),
+Theorem C12_reduce_horizontal_core : forall (A : Type) (f : A -> A -> A) (e z d : A) (N R C : nat) (init : option A)
+    (inp out0 : list A) (out2 : nat * nat),
   (forall a b c, f (f a b) c = f a (f b c)) -> (forall a b, f a b = f b a) -> (forall a, f e a = a) ->
   0 < N -> 0 < C -> length inp = R * C -> length out0 = R ->
-  option_map fst (run_hsteps N f z e inp (red_entries N HORIZONTAL out2 (R, C)) (out0, set1 N e))
-  = Some (map (fun r => fold_left f (firstn C (skipn (r * C) inp)) e) (seq 0 R)).
+  option_map (map (apply_initial f init))
+    (option_map fst (run_hsteps N f z e inp (red_entries N HORIZONTAL out2 (R, C)) (out0, set1 N e)))
+  = Some (map (fun r => fold_left f (firstn C (skipn (r * C) inp)) (match init with Some i => i | None => e end)) (seq 0 R)).
 Proof.
-  intros A f e z d N R C inp out0 out2 Ha Hc Hi HN HC Hl Ho.
-  exact (hreduce_eq A f e Ha Hc Hi N HN z inp R C HC Hl out2 d out0 Ho).
+  intros A f e z d N R C init inp out0 out2 Ha Hc Hi HN HC Hl Ho.
+  exact (hreduce_init_eq A f e Ha Hc Hi N HN z inp R C HC Hl out2 d init out0 Ho).
 Qed.
 Print Assumptions C12_reduce_horizontal_core.
 
@@ -108,20 +112,16 @@ Theorem C12_column_major_refuted : exists (N rows cols : nat) (logical out0 : li
 Proof. exists 2, 2, 2, [1; 2; 3; 4], [0; 0; 0; 0]. repeat split; try lia. vm_compute. discriminate. Qed.
 Print Assumptions C12_column_major_refuted.
 
-(* operands of different rank (or an n-d broadcast): refused, the caller keeps the zero-initialised output *)
-Theorem C12_binary_refused_refuted : exists (N : nat) (lhs rhs out0 : list nat),
-  0 < N /\ bc_compat [1; 5] [1; 5] = true /\
-  eval_binary N Nat.add [1; 5] [5] [1; 5] lhs rhs out0 = Refused /\
-  spec_binary_bc Nat.add 0 [1; 5] [1; 5] [1; 5] lhs rhs <> out0.
-Proof. exists 4, [1; 2; 3; 4; 5], [1; 2; 3; 4; 5], [0; 0; 0; 0; 0]. repeat split; try lia. vm_compute. discriminate. Qed.
-Print Assumptions C12_binary_refused_refuted.
-
-(* `initial` is not an input of eval_reduction at all *)
-Theorem C12_reduce_initial_refuted : exists (N : nat) (inp : list nat) (init : nat),
-  0 < N /\ eval_reduction N Nat.add 0 0 [2; 3] [1; 1] None inp = Done [21] /\
-  spec_reduce_full Nat.add 0 (Some init) inp = 121.
-Proof. exists 4, [1; 2; 3; 4; 5; 6], 100. repeat split; try lia. Qed.
-Print Assumptions C12_reduce_initial_refuted.
+(* operands of different rank (or an n-d broadcast): the simd path refuses and operator()() evaluates
+   the view with the default evaluator — the result IS the scalar evaluator's, whatever it is *)
+Theorem C12_binary_refused_falls_back : forall (A : Type) (N : nat) (f : A -> A -> A) (o ls rs : list nat) (lhs rhs out0 scalar : list A),
+  list_eqb ls rs = false -> (length ls =? length rs) && (length rs =? 2) = false ->
+  eval_binary N f o ls rs lhs rhs out0 = Refused /\
+  eval_binary_top N f o ls rs lhs rhs out0 scalar = Done scalar.
+Proof.
+  intros A N f o ls rs lhs rhs out0 scalar H1 H2. unfold eval_binary_top, eval_binary. rewrite H1, H2. split; reflexivity.
+Qed.
+Print Assumptions C12_binary_refused_falls_back.
 
 (* ---------- non-vacuity ---------- *)
 Example C12_nonvacuous_unary : eval_unary 4 S [1;2;3;4;5;6;7;8;9] (repeat 0 9) = Some [2;3;4;5;6;7;8;9;10].
@@ -140,8 +140,19 @@ Proof. repeat split; reflexivity. Qed.
 Example C12_repaired_full_multiply : eval_reduce_full 4 Nat.mul 0 1 6 [1;2;3;4;5;6] = Some 720.
 Proof. reflexivity. Qed.
 Example C12_repaired_negative_axis :
-  eval_reduction 4 Nat.add 0 0 [2; 3; 2] [2; 1; 2] (Some (true, 2)) [1;2;3;4;5;6;1;2;3;4;5;6] = Done [9; 12; 9; 12].
+  eval_reduction 4 Nat.add 0 0 [2; 3; 2] [2; 1; 2] (Some (true, 2)) None [1;2;3;4;5;6;1;2;3;4;5;6] = Done [9; 12; 9; 12].
 Proof. reflexivity. Qed.
 Example C12_repaired_1x1_operand : valid_operand 2 1 (2, 1) /\ valid_operand 2 1 (1, 1) /\
   eval_binary_2d 4 Nat.add (2, 1) (2, 1) (1, 1) [1; 2] [10] [0; 0] = Some [11; 12].
 Proof. repeat split; simpl; auto. Qed.
+(* the inputs of the two later repairs: (4) refused operands fall back, (5) initial is folded in *)
+Example C12_repaired_refused :
+  eval_binary_top 4 Nat.add [1; 5] [5] [1; 5] [1;2;3;4;5] [1;2;3;4;5] [0;0;0;0;0]
+    (spec_binary_bc Nat.add 0 [1; 5] [1; 5] [1; 5] [1;2;3;4;5] [1;2;3;4;5]) = Done [2; 4; 6; 8; 10].
+Proof. reflexivity. Qed.
+Example C12_repaired_initial :
+  eval_reduction 4 Nat.add 0 0 [2; 3] [1; 1] None (Some 100) [1;2;3;4;5;6] = Done [121]
+  /\ spec_reduce_full Nat.add 0 (Some 100) [1;2;3;4;5;6] = 121
+  /\ eval_reduction 4 Nat.add 0 0 [2; 3] [2; 1] (Some (false, 1)) (Some 100) [1;2;3;4;5;6] = Done [106; 115]
+  /\ spec_reduce_axis Nat.add 0 (Some 100) 2 3 1 [1;2;3;4;5;6] = [106; 115].
+Proof. repeat split; reflexivity. Qed.
